@@ -111,7 +111,9 @@ func Run(ctx *common.Ctx) {
 		"ratios (small and with numerators beyond 2^64), single and double floats, characters and strings over ASCII plus U+212A/U+017F, symbols in several " +
 		"spellings, proper and dotted lists, vectors, nested to depth 2; the second and third reference are with probability 0.6 a variant of an earlier one " +
 		"(same box, fresh copy, other numeric representation, neighbour value, other case, one element varied, list<->vector); all 9 ordered pairs x 4 predicates " +
-		"and sxhash observed. hash cases: a pool of 3-6 such keys (mostly hashable kinds, variants of each other), a table made with a random :test, a history of " +
+		"and sxhash observed (designed triples include one value as fixnum / bignum / ratio / single / double, k / K / KELVIN SIGN nested in lists and vectors, 2^79 against " +
+		"(2^80+3)/2, a fixnum beyond 2^53 with the floats it converts to). hash cases: a pool of 3-6 such keys (hashable kinds incl. bignums and ratios in separately allocated copies, " +
+		"lists that the table must refuse with a type-error, variants of each other), a table made with a random :test, a history of " +
 		"up to 12 setf-gethash/gethash/remhash/clrhash/hash-table-count/maphash with every result observed. type cases: typep of one object of every kind for every " +
 		"registered class name, every hierarchy symbol and some unknown or upper-case names; subtypep on all ordered pairs of class names (sampled above 4000) plus " +
 		"list designators; coerce of every kind to every coercion target. distinct_nontrivial counts distinct eq cases in which some pair is related by one predicate " +
